@@ -8,6 +8,7 @@ ones the compiled driver executes in the correspondence check.
 import FuraxModel.Expected
 import FuraxGenerated.Tables
 import FuraxProofs.Lemmas.Nary
+import FuraxProofs.Lemmas.ScalarModel
 namespace Furax.C01
 open Furax
 
@@ -48,5 +49,9 @@ theorem homothetyRule_sound {V : Type} (L : OpSem V) : L.toSem.ListSound homothe
 /-- identity removal alone -/
 theorem identityRule_sound {V : Type} (L : OpSem V) : L.toSem.ListSound identityRule :=
   L.identityRule_sound
+
+/-- non-vacuity: `OpSem` (identity is the identity, scalars multiply, every operator is homogeneous) is
+inhabited by a concrete non-trivial semantics -/
+theorem framework_inhabited : Nonempty (OpSem Rat) := ⟨scalarOpSem⟩
 
 end Furax.C01
